@@ -6,7 +6,6 @@ KF-binary-matching: static hash join, include labels appended, duplicate detecti
 samples that meet). The theorems below cover the parts that agree and exhibit the deviation.
 -/
 import PromqlVerif.Proofs.Den
-import PromqlVerif.Proofs.TableProof
 namespace PromqlVerif.C05
 open PromqlVerif Val
 
@@ -76,22 +75,5 @@ theorem engine_accepts_implicit_many_to_one :
     (j.outputs == [[⟨"a", "x"⟩], [⟨"a", "x"⟩]] &&
       isOkWith (engVectorBinop "+" false .oneToOne j [(0, (1 : Int)), (1, 2)] [(0, 1)]) [(0, 2), (1, 3)]) = true := by
   decide +kernel
-
-/-- **the reused output table**: `binary/table.go` keeps one table per operator and marks a slot as
-"filled at this step" by a timestamp tag instead of clearing the table. Modelled as written
-(`Table.lean`): along strictly increasing step timestamps, starting from `newTable`, the step
-vectors it produces and its first many-to-many error are those of a fresh table per step - which is
-how `Eng.engVectorBinop` models the operator. For every operator, `bool`, cardinality, join tables
-whose slots exist, and every content of the step vectors. -/
-theorem reused_table_is_fresh_table (op : String) (bool : Bool) (card : Card) (j : Join) (n : Nat)
-    (hr : InRange card j n) (steps : List (Int × IdVec V × IdVec V))
-    (hmono : (steps.map (·.1)).Pairwise (· < ·)) :
-    tagRun op bool card j (Tbl.new n) steps = freshRun op bool card j steps :=
-  tag_run_eq op bool card j n hr steps hmono
-
-/-- the engine's own join tables satisfy the side condition -/
-theorem join_slots_exist (m : Matching) (keepName : Bool) (high low : List Labels) (card : Card) :
-    InRange card (engJoin m keepName high low) (engJoin m keepName high low).outputs.length :=
-  inRange_of_jok card _ (engJoin_ok m keepName high low)
 
 end PromqlVerif.C05
